@@ -254,7 +254,77 @@ def guarded_sub(f, b, x, y):
     return None
 
 
-def auto_discharge(f, site):
+PRIM_SIZE = {"usize": 8, "isize": 8, "u64": 8, "i64": 8, "f64": 8, "u32": 4, "i32": 4, "f32": 4, "char": 4, "u16": 2, "i16": 2, "u8": 1, "i8": 1, "bool": 1}
+
+
+def _split_generics(s):
+    out, depth, cur = [], 0, ""
+    for ch in s:
+        if ch in "<([":
+            depth += 1
+        elif ch in ">)]":
+            depth -= 1
+        if ch == "," and depth == 0:
+            out.append(cur.strip())
+            cur = ""
+        else:
+            cur += ch
+    if cur.strip():
+        out.append(cur.strip())
+    return out
+
+
+def _ty_size(prog, ty):
+    """a LOWER bound on size_of::<ty>() for primitives, references, tuples and workspace structs of those; None if unknown"""
+    ty = ty.strip()
+    if ty in PRIM_SIZE:
+        return PRIM_SIZE[ty]
+    if ty.startswith("&") or ty.startswith("*"):
+        return 8
+    if ty.startswith("(") and ty.endswith(")"):
+        parts = [_ty_size(prog, x) for x in _split_generics(ty[1:-1])]
+        return sum(parts) if parts and all(x is not None for x in parts) else None
+    a = prog.adts.get(ty) if prog is not None else None
+    if a and a.get("kind") == "Struct" and len(a["variants"]) == 1:
+        parts = [_ty_size(prog, x["ty"]) for x in a["variants"][0]["fields"]]
+        return sum(parts) if all(x is not None for x in parts) else None
+    if ty.startswith(("alloc::vec::Vec<", "alloc::string::String")):
+        return 24
+    return None
+
+
+def _ty_size_upper(prog, ty):
+    """an UPPER bound (exact for the supported types): primitives, references and workspace newtypes of them"""
+    ty = ty.strip()
+    if ty in PRIM_SIZE:
+        return PRIM_SIZE[ty]
+    if ty.startswith("&") and "dyn " not in ty and "[" not in ty and "str" not in ty:
+        return 8
+    a = prog.adts.get(ty) if prog is not None else None
+    if a and a.get("kind") == "Struct" and len(a["variants"]) == 1 and len(a["variants"][0]["fields"]) == 1:
+        return _ty_size_upper(prog, a["variants"][0]["fields"][0]["ty"])
+    return None
+
+
+def _elem_size(prog, coll):
+    """lower bound on the bytes one element of an in-memory collection occupies"""
+    m = re.match(r"^(?:alloc::vec::Vec|std::collections::hash::set::HashSet|alloc::collections::vec_deque::VecDeque)<(.*)>$", coll)
+    if m:
+        return _ty_size(prog, _split_generics(m.group(1))[0])
+    m = re.match(r"^\[(.*)\]$", coll)
+    if m:
+        return _ty_size(prog, m.group(1).split(";")[0])
+    m = re.match(r"^(?:std::collections::hash::map::HashMap|indexmap::map::IndexMap|alloc::collections::btree::map::BTreeMap)<(.*)>$", coll)
+    if m:
+        kv = _split_generics(m.group(1))[:2]
+        parts = [_ty_size(prog, x) for x in kv]
+        return sum(parts) if len(parts) == 2 and all(x is not None for x in parts) else None
+    if coll in ("alloc::string::String", "str"):
+        return 1
+    return None
+
+
+def auto_discharge(f, site, prog=None):
     """returns a reason string if the site is discharged by a local rule, else None"""
     t = site.term
     if site.kind == "assert":
@@ -291,6 +361,19 @@ def auto_discharge(f, site):
             return "compiler-inserted debug UB check on a pointer freshly returned by the allocator (vec!/box expansion); absent in release builds"
     if site.kind == "pset":
         p = site.detail
+        if p in ("alloc::vec::Vec::<T>::with_capacity", "alloc::vec::Vec::<T, A>::with_capacity_in"):
+            # with_capacity(x.len()) for an existing in-memory collection x whose elements are at least as large as the new ones: x already
+            # occupies len * size bytes (< isize::MAX), so the new capacity computation cannot overflow (allocation failure aborts, it does not panic)
+            l = op_local(t["args"][0]) if t["args"] else None
+            d = f.single_def(f.copy_root(l)) if l is not None else None
+            if d and d[0] == "call" and callee_name(d[2]["callee"]).endswith("::len") and d[2]["args"]:
+                rl = op_local(d[2]["args"][0])
+                rty = strip_ref(f.local_ty(rl)) if rl is not None else ""
+                m2 = re.match(r"^alloc::vec::Vec<(.*)>$", t.get("dest_ty") or "")
+                have = _elem_size(prog, rty)
+                need = _ty_size_upper(prog, m2.group(1)) if m2 else None
+                if have is not None and need is not None and need <= have:
+                    return "capacity is the length of an existing %s (element size %d >= %d)" % (rty, have, need)
         if p in ("core::option::Option::<T>::unwrap", "core::option::Option::<T>::expect", "core::result::Result::<T, E>::unwrap", "core::result::Result::<T, E>::expect"):
             # NonZero::try_from(const nonzero).unwrap()
             l = op_local(t["args"][0])
@@ -342,7 +425,7 @@ def collect_sites(prog, fns):
         if is_clap_generated(f):
             continue
         for s in enumerate_sites(prog, f):
-            r = auto_discharge(f, s)
+            r = auto_discharge(f, s, prog)
             if r:
                 auto.append((s, r))
             else:
@@ -620,40 +703,50 @@ def c19a(chk, rows):
         chk.ob("C19.a", "get_axis/index-strictly-below-axis-length", ok, f.loc(), "the view is constructed only where `index < shape[axis]` is implied (dominating comparisons on the position argument: %s)" % (rel or "none"))
     g = chk.fn(ARR + "shape::strides::Strides::flat_index")
     if g is not None:
+        import iters as IT
         FU = ARR + "shape::strides::Strides::flat_index_unchecked"
-        al = [(b, t) for b, t in g.calls() if callee_is(t["callee"], "core::iter::traits::iterator::Iterator::all")]
-        ok = False
-        why = ""
+        its = IT.iterations(prog, g)
         # every call of the unchecked variant in flat_index or its closures
         fu = [(g, b, t) for b, t in an.calls(g, FU)] + [(c, b, t) for c in prog.closures_of(g.path) for b, t in an.calls(c, FU)]
-        if len(fu) == 1 and len(al) == 1:
+        ok = False
+        why = "expected exactly one flat_index_unchecked call"
+        if len(fu) == 1:
             h, fb, ft = fu[0]
-            if h is g:
-                # `if all(..) { Some(unchecked) }`
-                for sb, s in an.switches_on_call_result(g, al[0][0]):
-                    ok = ok or an.dominated_by_edge(g, sb, g.term(sb)["otherwise"], fb)
-                why = "direct call on the true edge of the all(..) result"
-            else:
-                # `all(..).then(|| unchecked)`: the closure runs only when the receiver is true, and the receiver is the all(..) result
+            B = fb
+            via = "direct call"
+            if h is not g:
+                # `cond.then(|| unchecked)`: the closure runs only when the receiver is true; judge at the then() call with the receiver's edge
+                B = None
                 for tb, tt in g.calls():
-                    if not callee_is(tt["callee"], "core::bool::<impl bool>::then"):
-                        continue
-                    if len(tt["args"]) < 2 or an.closure_of_operand(g, tt["args"][1]) != h.path:
-                        continue
-                    rl = op_local(tt["args"][0])
-                    ad = an.call_dest_local(al[0][1])
-                    if rl is not None and ad is not None and g.copy_root(rl) == ad and g.dominates(al[0][0], tb):
-                        ok = True
-                why = "inside the closure of bool::then whose receiver is the all(..) result"
-        cl_ok = False
-        if len(al) == 1:
-            cp = an.closure_of_operand(g, al[0][1]["args"][1]) if len(al[0][1]["args"]) > 1 else None
-            for c in prog.closures_of(g.path):
-                if cp is not None and c.path == cp:
-                    lt = [1 for b, t in c.calls() if callee_is(t["callee"], "core::cmp::PartialOrd::lt")]
-                    sw = list(c.switches())
-                    cl_ok = bool(lt) and not sw
-        chk.ob("C19.a", "flat_index/unchecked-under-all(idx<shape)", ok and cl_ok, g.loc(), "flat_index_unchecked only where every index is strictly below its axis length (%s; predicate closure is a single `<`: %s)" % (why or "no recognised guard", cl_ok))
+                    if callee_is(tt["callee"], "core::bool::<impl bool>::then") and len(tt["args"]) >= 2 and an.closure_of_operand(g, tt["args"][1]) == h.path:
+                        rl = op_local(tt["args"][0])
+                        rr = g.copy_root(rl) if rl is not None else None
+                        for x in its:
+                            if x.parent is g and x.kind == "closure" and x.consumer == "all" and an.call_dest_local(x.term) == rr:
+                                c = IT._closure_single_cmp(x)
+                                if c is not None:
+                                    via = "closure of bool::then on the all(..) result"
+                                    guards = [{"it": x, "cmp": IT.norm_cmp(c), "how": "all(..).then(..)"}]
+                                    B = tb
+            if h is g:
+                guards = IT.forall_guards(prog, g, its, B)
+            elif B is None:
+                guards = []
+            good = []
+            for gd in guards:
+                x = gd["it"]
+                ch = x.chain()
+                zt = IT.chain_get(ch, "zip")
+                if zt is None or [n for n in IT.chain_names(ch) if n not in ("zip", "iter")]:
+                    continue
+                s0 = g.slice_locals(zt["args"][0])[0]
+                s1 = g.slice_locals(zt["args"][1])[0]
+                roles = 3 in s0 and 2 in s1 and 2 not in s0 and 3 not in s1
+                if roles and gd["cmp"] == ("Lt", (0,), (1,)):
+                    good.append(gd)
+            ok = bool(good)
+            why = "%s; every-index-below-its-axis-length established by: %s" % (via, [(x["how"], x["cmp"]) for x in guards] or "nothing recognised")
+        chk.ob("C19.a", "flat_index/unchecked-under-all(idx<shape)", ok, g.loc(), "flat_index_unchecked only where every index is strictly below its axis length (zip(index, shape), idx < len): %s" % why)
 
 
 def none_sources_and_writes(prog, f, depth=0, seen=None):
